@@ -476,7 +476,7 @@ func cmdRun(args []string) int {
 		os.MkdirAll(replayDir, 0o755)
 		h := sha1.Sum([]byte(s))
 		path := filepath.Join(replayDir, fmt.Sprintf("%x.json", h[:6]))
-		rep := map[string]interface{}{"property": *prop, "signature": s, "paths_with_this_signature": g.Count, "case": c, "native_outcome": r.Outcome, "native_emits": r.Emits,
+		rep := map[string]interface{}{"property": *prop, "signature": s, "paths_with_this_signature": g.Count, "case": c, "native_outcome": entry["native_outcome"], "native_demonstration": entry["native_demonstration"], "native_emits": r.Emits,
 			"replay_cmd": fmt.Sprintf("cd %s && ./check --replay %s", verifHome(), path)}
 		js, _ := json.MarshalIndent(rep, "", " ")
 		os.WriteFile(path, js, 0o644)
@@ -484,7 +484,17 @@ func cmdRun(args []string) int {
 		entry["replay"] = path
 		violOut = append(violOut, entry)
 		fmt.Printf("VIOLATION property=%s replay=%s\n", *prop, path)
-		fmt.Printf("  signature: %s (%d paths)  native: %s\n", s, g.Count, r.Outcome)
+		nativeTxt := r.Outcome
+		if v, ok := entry["native_outcome"].(string); ok {
+			nativeTxt = v
+		}
+		if d, ok := entry["native_demonstration"].(string); ok {
+			nativeTxt = d + ": " + nativeTxt
+		}
+		if len(nativeTxt) > 300 {
+			nativeTxt = nativeTxt[:300] + "…"
+		}
+		fmt.Printf("  signature: %s (%d paths)  native: %s\n", s, g.Count, nativeTxt)
 		exit = 1
 	}
 
